@@ -43,7 +43,12 @@ Inductive item :=
 | IShortBytes (e : ex)                (* write_short_bytes *)
 | IIntString (e : ex)                 (* write_int_string *)
 | IRaw (e : ex)                       (* a bytes value appended as it is *)
-| IFor (e : ex) (body : list item).   (* for x in e: body *)
+| IFor (e : ex) (body : list item)    (* for x in e: body *)
+| ILetMsgSet (msgs magic : ex) (body : list item).
+                                      (* x = KafkaCodec._encode_message_set(msgs, magic=magic); body   (x = a new level).
+                                         Restricted semantics: the clock is not modelled here - a format-1 message
+                                         without timestamp is stamped 0; Proofs.EncDSLSound relates it to the model for
+                                         message lists that carry their timestamps *)
 
 Definition prog : Type := list item.
 
@@ -63,9 +68,9 @@ Definition vpartition (v : val) : Z :=
   match vfield "partition" v with Some (VInt z) => z | _ => 0 end.
 
 (* the dict of dicts built by _util.group_by_topic_and_partition, as nested item lists *)
-Definition vgroup (l : list val) : val :=
-  VList (map (fun tp => VTup [VStr (fst tp); VList (map (fun pp => VTup [VInt (fst pp); snd pp]) (snd tp))])
-             (group_by_topic_and_partition vtopic vpartition l)).
+Definition vgroup (l : list val) : list val :=
+  map (fun tp => VTup [VStr (fst tp); VList (map (fun pp => VTup [VInt (fst pp); snd pp]) (snd tp))])
+      (group_by_topic_and_partition vtopic vpartition l).
 
 Fixpoint eval (env : list val) (e : ex) : option val :=
   match e with
@@ -79,7 +84,7 @@ Fixpoint eval (env : list val) (e : ex) : option val :=
               | Some (VMsgs l) => Some (VInt (llen l))
               | _ => None
               end
-  | EGroup e => match eval env e with Some (VList l) => Some (vgroup l) | _ => None end
+  | EGroup e => match eval env e with Some (VList l) => Some (VList (vgroup l)) | _ => None end
   | EKeys e => match eval env e with
                | Some (VList l) => Some (VList (map (fun kv => match kv with VTup (k :: _) => k | _ => kv end) l))
                | _ => None
@@ -134,6 +139,18 @@ Fixpoint run_item (i : item) (env : list val) {struct i} : res (list Z) :=
                                end) body) l
       | _ => Err TypeErr
       end
+  | ILetMsgSet msgs magic body =>
+      match eval env msgs with
+      | Some (VMsgs ms) =>
+          do mg <- eval_int env magic;
+          do b <- encode_message_set (fun _ => 0) O ms None mg;
+          (fix run_items (its : list item) : res (list Z) :=
+             match its with
+             | [] => Ok []
+             | it :: r => do a <- run_item it (env ++ [VStr (Some b)]); do t <- run_items r; Ok (a ++ t)
+             end) body
+      | _ => Err TypeErr
+      end
   end.
 
 Fixpoint run (p : prog) (env : list val) : res (list Z) :=
@@ -158,4 +175,20 @@ Lemma run_item_for e body env :
 Proof.
   cbn [run_item]. destruct (eval env e) as [[z|s|ms|l|l|fs]|]; try reflexivity.
   apply enc_all_ext. intros v _. induction body as [|it r IH]; cbn [run]; [reflexivity|]. now rewrite IH.
+Qed.
+
+Lemma run_item_let msgs magic body env :
+  run_item (ILetMsgSet msgs magic body) env =
+  match eval env msgs with
+  | Some (VMsgs ms) =>
+      do mg <- eval_int env magic;
+      do b <- encode_message_set (fun _ => 0) O ms None mg;
+      run body (env ++ [VStr (Some b)])
+  | _ => Err TypeErr
+  end.
+Proof.
+  cbn [run_item]. destruct (eval env msgs) as [[z|s|ms|l|l|fs]|]; try reflexivity.
+  destruct (eval_int env magic) as [mg|]; cbn [bind]; [|reflexivity].
+  destruct (encode_message_set (fun _ => 0) O ms None mg) as [b|]; cbn [bind]; [|reflexivity].
+  induction body as [|it r IH]; cbn [run]; [reflexivity|]. now rewrite IH.
 Qed.
